@@ -482,3 +482,60 @@ Qed.
 
 End Trace.
 
+Section Trace2.
+Context {CC : Type} (cci : cc_iface CC).
+Hypothesis Hcc : cc_total cci.
+Variables ti tm : Z.
+Notation vsock := (vsock CC).
+
+(* the poll after the write *)
+Lemma prompt_write_poll : forall (s1 : vsock) tx1 n w buf s3 r,
+  tinv ti tm s1 -> tinv ti tm (set_tx s1 tx1) ->
+  IBE s1 -> v_state s1 = Established -> ss_segs (v_segs s1) = [] -> ring (v_tx s1) = [] ->
+  poll_write (v_tx s1) buf = (tx1, WrOk n, w) ->
+  0 < v_last_remote_window s1 ->
+  Z.min (max_ss (v_ss s1)) n <= cc_window cci (v_cc s1) ->
+  v_rto_retransmissions s1 = 0 -> is_recovering (v_recovery s1) = false ->
+  timer_expired (v_t_retransmit s1) (v_env_now s1) = false ->
+  timer_expired (v_t_inactivity s1) (v_env_now s1) = false ->
+  v_cbu s1 < IMMEDIATE_ACK_EVERY_RMSS * mss (v_ss s1) ->
+  seq_sub (wadd16 (v_last_sent_seq_nr s1) 1) (ss_snd_una (v_segs s1)) <= 0 ->
+  seq_sub (v_last_sent_seq_nr s1) (ss_snd_una (v_segs s1)) + 1 <= 0 ->
+  (forall m, v_emsg_limit s1 = Some m -> 20 + max_ss (v_ss s1) <= m) ->
+  o_max_retx (v_opts s1) <> 0 ->
+  poll cci (VSockRec.set_sends (set_tx s1 tx1) []) = (s3, r) ->
+  exists l p l0, v_out s3 = l ++ p :: l0 /\ ch_type (p_hdr p) = ST_DATA /\ 1 <= Z.of_nat (length (p_payload p)).
+Proof.
+  intros s1 tx1 n w buf s3 r T1 T2 [Hi Hc] Est Es Hring Hw Hlrw Hcw Hrto Hrec Ext Exi Hcbu Hoff Htake Hlim Hmax Hp.
+  destruct (poll_write_ok _ _ _ _ _ Hw) as [Hr1 Hn]. rewrite Hring in Hr1. cbn [app] in Hr1.
+  set (s2 := set_tx s1 tx1) in *.
+  (* the poll does not panic *)
+  assert (Hnp : r <> PollPanic).
+  { destruct T2 as [Hx Hclk].
+    pose proof (poll_x cci false Hcc ti tm (VSockRec.set_sends s2 [])) as Px.
+    rewrite Hp in Px.
+    assert (Hx' : vs_x ti tm 0 qT (VSockRec.set_sends s2 [])).
+    { eapply x_same_core; [exact Hx|]. unfold same_core. vsimpl_goal. repeat split. }
+    specialize (Px Hx' Hclk ltac:(intro K; discriminate K)).
+    destruct (ret_ok_result false ti tm _ _ _ Px) as [K _]. exact K. }
+  destruct T1 as [[Hinv _] _].
+  destruct (inv_parts _ _ _ _ Hinv) as (I1 & I2 & _ & _ & _ & I6 & _).
+  rewrite poll_unfold in Hp.
+  set (x0 := poll_init (VSockRec.set_sends s2 [])) in *.
+  assert (Hlen : Z.of_nat (length (ring (v_tx x0))) = n).
+  { change (ring (v_tx x0)) with (ring tx1). rewrite Hr1, firstn_length. lia. }
+  pose proof (prompt_body cci x0 Est Es I2 I6 I1) as B.
+  specialize (B ltac:(change (ring (v_tx x0)) with (ring tx1); rewrite Hr1;
+                      destruct (firstn (Z.to_nat n) buf) eqn:Ef; [|discriminate];
+                      apply (f_equal (@length _)) in Ef; rewrite firstn_length in Ef; cbn [length] in Ef; lia)).
+  specialize (B Hi Hc Hlrw ltac:(rewrite Hlen; exact Hcw) Hrto Hrec Ext Exi Hcbu Hoff Htake eq_refl Hlim Hmax).
+  rewrite (poll_loop_S cci 63 x0) in Hp.
+  destruct (poll_body cci x0) as [s' r'|s'|].
+  - injection Hp as <- _. exact B.
+  - destruct B as (l & p & l0 & B1 & B2 & B3).
+    destruct (VSock_LemmasFin.poll_loop_frame0 cci 63 s') as (_ & _ & _ & _ & _ & _ & (l2 & P7) & _).
+    rewrite Hp in P7. cbn [fst] in P7. exists (l2 ++ l), p, l0. rewrite P7, B1, app_assoc. auto.
+  - injection Hp as _ <-. congruence.
+Qed.
+
+End Trace2.
